@@ -77,15 +77,17 @@ decreasing_by all_goals (simp only [List.length_cons, List.length_drop]; omega)
 /-- `fetchString` after the opening quote: raw token bytes and the input after the closing quote -/
 def scanString : Bytes → Option (Bytes × Bytes)
   | [] => none
-  | [b] => if b == 0x22 then some ([], []) else none
-  | b :: c :: t =>
-    if b == 0x22 then some ([], c :: t)
+  | b :: t =>
+    if b == 0x22 then some ([], t)
     else if b == 0x5C then
-      match scanString t with
-      | none => none
-      | some (raw, rest) => some (b :: c :: raw, rest)
+      match t with
+      | [] => none
+      | c :: t' =>
+        match scanString t' with
+        | none => none
+        | some (raw, rest) => some (b :: c :: raw, rest)
     else
-      match scanString (c :: t) with
+      match scanString t with
       | none => none
       | some (raw, rest) => some (b :: raw, rest)
 
